@@ -269,6 +269,9 @@ pub fn run(ctx: &mut Ctx) -> Report {
 			("permit-dns-exclude-sub", Some((vec![Subtree::Dns("example.com".into())], vec![Subtree::Dns("bad.example.com".into())]))),
 			("permit-ip4-0", Some((vec![Subtree::Ip4p([0, 0, 0, 0], 0)], vec![]))),
 			("permit-ip4-32", Some((vec![Subtree::Ip4p([192, 0, 2, 5], 32)], vec![]))),
+			// the IPv4-mapped range of IPv6 (::ffff:0:0/96): IPv6 names in it are IPv6 names
+			("permit-ip6-mapped", Some((vec![Subtree::Ip6p([0, 0, 0, 0, 0, 0, 0, 0, 0, 0, 0xff, 0xff, 0, 0, 0, 0], 96)], vec![]))),
+			("exclude-ip6-mapped", Some((vec![], vec![Subtree::Ip6p([0, 0, 0, 0, 0, 0, 0, 0, 0, 0, 0xff, 0xff, 0, 0, 0, 0], 96)]))),
 		];
 		let ip = |s: &str| San::Ip(s.parse::<IpAddr>().unwrap());
 		let leaf_names: Vec<(&str, Vec<San>)> = vec![
@@ -283,6 +286,9 @@ pub fn run(ctx: &mut Ctx) -> Report {
 			("ip6-outside", vec![ip("2001:db9::1")]),
 			("dns-inside+ip4-outside", vec![San::Dns("a.example.com".into()), ip("198.51.100.1")]),
 			("dns-inside+ip4-inside", vec![San::Dns("a.example.com".into()), ip("192.0.2.5")]),
+			("ip6-mapped", vec![ip("::ffff:10.1.2.3")]),
+			("ip6-mapped-of-inside-ip4", vec![ip("::ffff:192.0.2.5")]),
+			("ip6-compatible", vec![ip("::10.1.2.3")]),
 		];
 		for (cn, nc) in &constraints {
 			for (ln, names) in &leaf_names {
